@@ -63,6 +63,7 @@ type Prog struct {
 	views    map[viewKey]*Func
 	viewSets map[string]*ViewSet
 	mutRecv  map[*types.Func]bool
+	normSeq  int
 }
 
 // Func is a declared function, method or function literal with a body.
@@ -134,6 +135,9 @@ func Load(dir string, overlay map[string][]byte) (*Prog, error) {
 				for _, d := range file.Decls {
 					if fd, ok := d.(*ast.FuncDecl); ok && fd.Body != nil {
 						p.detemp(pkg.TypesInfo, fd.Body)
+						if os.Getenv("SIALINT_NOSEARCH") == "" {
+							p.desugarSearch(pkg.TypesInfo, fd.Body)
+						}
 						if os.Getenv("SIALINT_NOLOOPS") == "" {
 							p.canonLoops(pkg.TypesInfo, fd.Body)
 							p.detemp(pkg.TypesInfo, fd.Body)
